@@ -32,6 +32,37 @@ pub enum Case {
     Eco(EcoState),
 }
 
+/// The response `theship::query` must derive from a The Ship server state.
+pub fn expected_theship(st: &A2sState) -> theship::Response {
+    let g = GatheringSettings { players: GatherToggle::Try, rules: GatherToggle::Try, check_app_id: true };
+    let r = st.expected_response(&g);
+    let ed = r.info.extra_data.clone();
+    let ship = r.info.the_ship.unwrap();
+    theship::Response {
+        protocol_version: r.info.protocol_version,
+        name: r.info.name,
+        map: r.info.map,
+        game_mode: r.info.game_mode,
+        game_version: r.info.game_version,
+        players: r.players.unwrap().iter().map(|p| theship::TheShipPlayer { name: p.name.clone(), score: p.score, duration: p.duration, deaths: p.deaths.unwrap(), money: p.money.unwrap() }).collect(),
+        players_online: r.info.players_online,
+        players_maximum: r.info.players_maximum,
+        players_bots: r.info.players_bots,
+        server_type: r.info.server_type,
+        has_password: r.info.has_password,
+        vac_secured: r.info.vac_secured,
+        port: ed.as_ref().and_then(|e| e.port),
+        steam_id: ed.as_ref().and_then(|e| e.steam_id),
+        tv_port: ed.as_ref().and_then(|e| e.tv_port),
+        tv_name: ed.as_ref().and_then(|e| e.tv_name.clone()),
+        keywords: ed.as_ref().and_then(|e| e.keywords.clone()),
+        rules: r.rules.unwrap(),
+        mode: ship.mode,
+        witnesses: ship.witnesses,
+        duration: ship.duration,
+    }
+}
+
 pub struct C07;
 
 const ANY: &[char] = &[];
@@ -166,33 +197,7 @@ impl Prop for C07 {
                 }
                 let run = run_scripted(Box::new(server), || theship::query(&ip, Some(27015)));
                 if *missing == 0 {
-                    let g = GatheringSettings { players: GatherToggle::Try, rules: GatherToggle::Try, check_app_id: true };
-                    let r = st.expected_response(&g);
-                    let ed = r.info.extra_data.clone();
-                    let ship = r.info.the_ship.unwrap();
-                    let expected = theship::Response {
-                        protocol_version: r.info.protocol_version,
-                        name: r.info.name,
-                        map: r.info.map,
-                        game_mode: r.info.game_mode,
-                        game_version: r.info.game_version,
-                        players: r.players.unwrap().iter().map(|p| theship::TheShipPlayer { name: p.name.clone(), score: p.score, duration: p.duration, deaths: p.deaths.unwrap(), money: p.money.unwrap() }).collect(),
-                        players_online: r.info.players_online,
-                        players_maximum: r.info.players_maximum,
-                        players_bots: r.info.players_bots,
-                        server_type: r.info.server_type,
-                        has_password: r.info.has_password,
-                        vac_secured: r.info.vac_secured,
-                        port: ed.as_ref().and_then(|e| e.port),
-                        steam_id: ed.as_ref().and_then(|e| e.steam_id),
-                        tv_port: ed.as_ref().and_then(|e| e.tv_port),
-                        tv_name: ed.as_ref().and_then(|e| e.tv_name.clone()),
-                        keywords: ed.as_ref().and_then(|e| e.keywords.clone()),
-                        rules: r.rules.unwrap(),
-                        mode: ship.mode,
-                        witnesses: ship.witnesses,
-                        duration: ship.duration,
-                    };
+                    let expected = expected_theship(st);
                     o.failure = expect_equal("C07", "theship::query", &run, &expected, &[".rules"]);
                 } else {
                     match &run.ended {
